@@ -28,12 +28,12 @@ TOKEN = {'Position': 'p', 'NedVelocity': 'v', 'BodyVelocity': 'b'}
 FAULT_KINDS = ['imu_jitter', 'imu_drop', 'imu_stall', 'meas_drop', 'meas_outage',
                'meas_latency', 'meas_snap', 'meas_cluster', 'meas_dup_cross',
                'meas_early', 'meas_late', 'at_start', 'at_end', 'clock_origin',
-               'no_measurements', 'traj_subsample']
+               'no_measurements', 'traj_subsample', 'meas_ulp']
 
 TEMPLATES = ['free', 'free', 'free', 'free', 'free', 'free',
              'last_interval', 'triple_cluster', 'boundary', 'tenhz_default',
              'grow_inside', 'empty_table', 'all_lost', 'first_interval',
-             'shared_epochs', 'repo_like']
+             'shared_epochs', 'repo_like', 'rounding_hazard', 'rounding_hazard']
 
 
 def rng_of(run_seed):
@@ -93,6 +93,33 @@ def model_has_sm(params):
 
 # --------------------------------------------------------------------- generation
 def _gen_imu_stamps(r, enabled, trace, template, n_range):
+    if template == 'rounding_hazard':
+        # non-dyadic periods, a record that starts at / crosses zero or starts at a small
+        # time, and an early data gap whose end is more than twice its start: the regime
+        # where a + (b - a) != b and fl(t + step) falls short of the next stamp
+        period = [0.1, 0.01, 0.07, 1.0 / 3.0, 0.03][int(r.integers(5))]
+        n = int(r.integers(n_range[0], min(n_range[1], 40) + 1))
+        k0 = [0, 0, -int(r.integers(1, n)), int(r.integers(1, 4))][int(r.integers(4))]
+        st = period * (k0 + np.arange(n + 1))
+        if r.random() < 0.5:
+            st = np.cumsum(np.r_[st[0], np.full(n, period)])
+        if r.random() < 0.8 and n > 6:
+            at = int(r.integers(2, min(8, n - 2)))
+            k = int(r.integers(3, 60))
+            mul = bool(r.random() < 0.5)
+            base = st.copy()
+            for k_try in range(k, k + 40):
+                # prefer a gap for which a + (b - a) really rounds off b
+                st = base.copy()
+                st[at:] = (st[at:] + k_try * period) if mul else \
+                    period * (k0 + k_try + np.arange(at, n + 1))
+                if st[at - 1] + (st[at] - st[at - 1]) != st[at]:
+                    k = k_try
+                    break
+            trace.append(dict(kind='imu_stall', at=at, gap=float(k * period)))
+        if k0 < 0:
+            trace.append(dict(kind='clock_origin', origin=float(st[0])))
+        return np.asarray(st, dtype=float), period
     if template == 'tenhz_default':
         period = 0.1
         origin = 0.0
@@ -227,6 +254,16 @@ def _gen_sensors(r, imu, period, enabled, trace, template, max_epochs):
                 st = np.where(sel, imu[idx], st)
                 trace.append(dict(kind='meas_snap', sensor=i, n=int(sel.sum())))
                 setS(i, st)
+        if 'meas_ulp' in enabled or template == 'rounding_hazard':
+            # a sensor clock that computes the "same" epoch by another formula: stamps one
+            # ulp away from an IMU epoch
+            i = int(r.integers(ns))
+            k = int(r.integers(1, 4))
+            pick = r.choice(imu, size=min(k, len(imu)), replace=False)
+            off = [float(np.nextafter(t, np.inf)) if r.random() < 0.5
+                   else float(np.nextafter(t, -np.inf)) for t in pick]
+            setS(i, np.r_[S(i), off])
+            trace.append(dict(kind='meas_ulp', sensor=i, n=len(off)))
         if 'meas_cluster' in enabled or template in ('last_interval', 'triple_cluster',
                                                      'first_interval'):
             n_clusters = int(r.integers(1, 3))
@@ -305,10 +342,13 @@ def gen_time_step(r, imu, template, regime=None):
         return 1.0
     opts = ['default', 'tiny', 'gap', 'gap_minus', 'gap_plus', 'gap2_5', 'one', 'half',
             'span3', 'huge', 'rand']
+    if template == 'rounding_hazard' and regime is None:
+        opts = ['default', 'tiny', 'gap', 'gap_minus', 'gap_plus', 'gap_half', 'gap_half']
     pick = regime or opts[int(r.integers(len(opts)))]
     return {'default': None, 'tiny': gap / 7.3, 'gap': gap, 'gap_minus': gap * (1 - 1e-7),
             'gap_plus': gap * (1 + 1e-7), 'gap2_5': gap * 2.5, 'one': 1.0,
             'half': max(span / 2, 1e-3), 'span3': span * 3, 'huge': 1.0e6,
+            'gap_half': gap / 2,
             'rand': _logu(r, -2.5, 0.7)}[pick]
 
 
@@ -683,6 +723,15 @@ def probes(sc, m, outcome=None):
         hit['buffer_growth_inside_filter'] = 1
     if sc['filter'] == 'feedforward' and sc['knobs'].get('traj_subsample', 1) > 1:
         hit['rows_sparser_than_increments'] = 1
+    if a < 0 < b:
+        hit['clock_crosses_zero'] = 1
+    g_ = np.diff(rows)
+    if ((rows[:-1] + (rows[1:] - rows[:-1])) != rows[1:]).any():
+        hit['a_plus_gap_rounds_off_next_stamp'] = 1
+    rowset_ = set(rows.tolist())
+    if any((t not in rowset_) and (np.nextafter(t, np.inf) in rowset_ or
+                                   np.nextafter(t, -np.inf) in rowset_) for t in merged):
+        hit['stamp_one_ulp_from_epoch'] = 1
     if abs(a) >= 1e5:
         hit['gps_week_scale_clock'] = 1
     if a < 0:
